@@ -366,6 +366,60 @@ pub fn run(args: &Args) {
         roundtrips(&mut rep, &mut rng, i);
         several_tokens(&mut rep, &mut rng);
         token_under_null(&mut rep, &mut rng);
+        if i % 5 == 0 {
+            // keywords, numbers and strings padded with characters Unicode calls white space but JSON does not
+            let blank = ["\u{A0}", "\u{B}", "\u{C}", "\u{85}", "\u{2003}", "\u{2028}", "\u{3000}", "\u{FEFF}", " ", "\n"][rng.below(10)];
+            let core = ["true", "false", "null", "1", "\"s\"", "[1]", "{}", "-0.5"][rng.below(8)];
+            let body = match rng.below(3) {
+                0 => format!("{}{}", blank, core),
+                1 => format!("{}{}", core, blank),
+                _ => format!(" {}{} ", blank, core),
+            };
+            decoder_agreement(&mut rep, &body, 1);
+        }
+        if i % 7 == 0 {
+            // a literal object with a repeated member name denotes the JSON value every reader here gives it (the
+            // later member wins): two or three occurrences, adjacent or far apart, spelled the same or through
+            // escapes, in objects of 2..70 members, at the top or nested; then selected by name
+            let n = [2usize, 3, 4, 8, 16, 31, 32, 33, 40, 48, 64, 70][rng.below(12)];
+            let name = ["a", "dup", "é", "k 1", ""][rng.below(5)];
+            let respelled = match name { "a" => "\\u0061", "dup" => "d\\u0075p", "é" => "\\u00e9", "k 1" => "k\\u00201", _ => "" };
+            let (p, q) = (rng.below(n), rng.below(n));
+            let third = if rng.chance(1, 3) { Some(rng.below(n)) } else { None };
+            let members: Vec<String> = (0..n)
+                .map(|k| {
+                    if k == p || k == q || Some(k) == third {
+                        format!("\"{}\": {}", if k == q.max(p) && rng.chance(1, 2) { respelled } else { name }, 100 + k)
+                    } else {
+                        format!("\"m{}\": {}", (k * 37) % 101, k)
+                    }
+                })
+                .collect();
+            let obj = format!("{{{}}}", members.join(if rng.chance(1, 2) { ", " } else { "," }));
+            let body = match rng.below(3) { 0 => obj.clone(), 1 => format!("[{}, 1]", obj), _ => format!("{{\"o\": {}}}", obj) };
+            decoder_agreement(&mut rep, &body, 1);
+            // … and the member selected from the literal is the last one written
+            let last = [Some(p), Some(q), third].iter().flatten().max().cloned().unwrap();
+            let sel = format!("`{}`.\"{}\"", obj, name);
+            rep.evaluations += 1;
+            match search(&sel, &Value::Null) {
+                Ok(Ok(v)) if v == json!(100 + last) => rep.count("repeated_member_of_a_literal_is_the_last_one"),
+                other => rep.violation("C09/literal-decodes-differently", json!({"source": sel, "expected": 100 + last, "got": format!("{:?}", other), "what": "a repeated member name in a literal object: the later member wins"})),
+            }
+        }
+        if i % 11 == 0 {
+            // a quoted identifier is never a function name, whatever stands between it and the parenthesis
+            let gap = ["", " ", "\t", "\n", "\r\n", "  ", " \n "][rng.below(7)];
+            let f = ["length", "abs", "type", "not_null", "foo"][rng.below(5)];
+            let arg = ["@", "a", "`1`", "'x'", ""][rng.below(5)];
+            for text in [format!("\"{}\"{}({})", f, gap, arg), format!("a.\"{}\"{}({})", f, gap, arg), format!("[\"{}\"{}({})]", f, gap, arg), format!("a | \"{}\"{}({})", f, gap, arg), format!("\"{}\"{}({}) || b", f, gap, arg)] {
+                rep.evaluations += 1;
+                match search(&text, &json!({"length": 1, "a": {"length": 2}})) {
+                    Ok(Err(e)) if e.starts_with("compile error: parse") => rep.count("quoted_identifier_in_call_position_rejected"),
+                    other => rep.violation("C09/malformed-form-accepted", json!({"source": text, "got": format!("{:?}", other), "what": "a quoted identifier in call position"})),
+                }
+            }
+        }
         if i % 6 == 0 {
             // long bodies, well-formed or not, with multi-byte characters where text gets cut
             let around = [16usize, 32, 64, 100, 128, 160, 200, 256, 512, 1024, 4096][rng.below(11)];
